@@ -36,6 +36,7 @@ type protObj struct {
 	Extra  []byte
 	Data   []byte
 	RelPos uint32 // relative ID (from the integrity stream)
+	Group  uint32 // not protected as a number (a group may be renumbered as a whole): not part of equal
 }
 
 type protView struct {
@@ -45,18 +46,29 @@ type protView struct {
 
 func protectedView(f *sif.FileImage) protView {
 	pv := protView{Launch: f.LaunchScript(), Version: f.Version(), ID: f.ID(), Objs: map[uint32][]protObj{}}
+	// an object's position relative to its group, from the table alone: its ID minus the lowest ID
+	// any member of its group carries (not taken from the library's integrity stream, which is one
+	// of the things under test)
+	minID := map[uint32]uint32{}
+	f.WithDescriptors(func(d sif.Descriptor) bool {
+		if m, ok := minID[d.GroupID()]; !ok || d.ID() < m {
+			minID[d.GroupID()] = d.ID()
+		}
+		return false
+	})
 	f.WithDescriptors(func(d sif.Descriptor) bool {
 		var rc rawCapture
 		_ = d.GetMetadata(&rc)
 		l, g := d.LinkedID()
 		b, _ := d.GetData()
 		st := readAll(d.GetIntegrityReader())
-		rel := uint32(0)
-		if len(st) >= 9 {
-			rel = uint32(st[5]) | uint32(st[6])<<8 | uint32(st[7])<<16 | uint32(st[8])<<24
+		_ = st
+		rel := d.ID() - minID[d.GroupID()]
+		if d.GroupID() == 0 {
+			rel = 0
 		}
 		pv.Objs[d.ID()] = append(pv.Objs[d.ID()], protObj{DT: int32(d.DataType()), Link: l, LinkG: g, Size: d.Size(), CT: d.CreatedAt().Unix(),
-			Name: d.Name(), Extra: rc.b, Data: b, RelPos: rel})
+			Name: d.Name(), Extra: rc.b, Data: b, RelPos: rel, Group: d.GroupID()})
 		return false
 	})
 	return pv
@@ -964,6 +976,15 @@ func scenC04(g *Gen, dir string) ([]*Op, func(e *Env, i int, op *Op, obs []strin
 			for _, id := range verifiedIDs {
 				for _, n := range now.Objs[id] {
 					if n.DT == 0x4005 {
+						continue
+					}
+					// (an edit can hand the ID to an object of another group — two objects exchange
+					// their numbers —: that object is not the covered one, and nobody claims it is)
+					sameGroup := false
+					for _, o := range orig.Objs[id] {
+						sameGroup = sameGroup || o.Group == n.Group
+					}
+					if !sameGroup {
 						continue
 					}
 					same := false
